@@ -10,7 +10,9 @@ Inductive act :=
 | ACancel
 | APanic (v : nat)
 | AMapRH (k : nat)          (* c.Map(ReturnHandler(custom k)): request-scoped return handler *)
-| ASub.                     (* a sub-request through the same application (a separate request) *)
+| ASub                      (* a sub-request through the same application (a separate request) *)
+| AWrapRW.                  (* c.MapTo(wrapper, http.ResponseWriter): the writer re-mapped in the request scope; every Write through the
+                               wrapper is preceded by a marker Write *)
 
 Inductive handler :=
 | HNormal (acts : list act) (ret : list rv)   (* a scripted handler body and what it returns *)
@@ -35,26 +37,35 @@ Record st := mkst {
   body : list chunk;         (* oldest first *)
   cancelled : bool;          (* request context done *)
   trace : list event;        (* oldest first *)
-  rh : option nat            (* ReturnHandler mapped in the request scope *)
+  rh : option nat;           (* ReturnHandler mapped in the request scope *)
+  wrapped : bool             (* http.ResponseWriter re-mapped in the request scope to the marking wrapper *)
 }.
 
 Inductive outcome := Done (s : st) | Panicked (v : nat) (s : st) | OutOfFuel.
 
-Definition set_idx (s : st) (i : nat) := mkst i (status s) (body s) (cancelled s) (trace s) (rh s).
-Definition log (s : st) (e : event) := mkst (idx s) (status s) (body s) (cancelled s) (trace s ++ [e]) (rh s).
-Definition set_cancelled (s : st) := mkst (idx s) (status s) (body s) true (trace s) (rh s).
-Definition set_rh (s : st) (k : nat) := mkst (idx s) (status s) (body s) (cancelled s) (trace s) (Some k).
+Definition set_idx (s : st) (i : nat) := mkst i (status s) (body s) (cancelled s) (trace s) (rh s) (wrapped s).
+Definition log (s : st) (e : event) := mkst (idx s) (status s) (body s) (cancelled s) (trace s ++ [e]) (rh s) (wrapped s).
+Definition set_cancelled (s : st) := mkst (idx s) (status s) (body s) true (trace s) (rh s) (wrapped s).
+Definition set_rh (s : st) (k : nat) := mkst (idx s) (status s) (body s) (cancelled s) (trace s) (Some k) (wrapped s).
+Definition set_wrapped (s : st) := mkst (idx s) (status s) (body s) (cancelled s) (trace s) (rh s) true.
 
 (* the first status wins; that is when the status line reaches the client *)
 Definition w_header (c : Z) (s : st) : st :=
-  if Z.eqb (status s) 0 then mkst (idx s) c (body s) (cancelled s) (trace s ++ [Sent]) (rh s) else s.
+  if Z.eqb (status s) 0 then mkst (idx s) c (body s) (cancelled s) (trace s ++ [Sent]) (rh s) (wrapped s) else s.
 
 Definition w_body (head : bool) (ch : chunk) (s : st) : st :=
   let s1 := w_header 200 s in
-  if head then s1 else mkst (idx s1) (status s1) (body s1 ++ [ch]) (cancelled s1) (trace s1) (rh s1).
+  if head then s1 else mkst (idx s1) (status s1) (body s1 ++ [ch]) (cancelled s1) (trace s1) (rh s1) (wrapped s1).
 
 Definition w_ops (head : bool) (ops : list wop) (s : st) : st :=
   fold_left (fun s o => match o with WHeader c => w_header c s | WBody b => w_body head (CBytes b) s end) ops s.
+
+(* what the marking wrapper adds: one marker Write ("W") before every Write that goes through it *)
+Definition marker : str := [87%N].
+Definition mark_ops (ops : list wop) : list wop :=
+  flat_map (fun o => match o with WBody b => [WBody marker; WBody b] | o => [o] end) ops.
+Definition w_mark (head : bool) (s : st) : st :=
+  if wrapped s then w_body head (CBytes marker) s else s.
 
 (* a user-supplied ReturnHandler (identified by k): writes its own status and marker *)
 Definition custom_rh (k : nat) : list wop := [WHeader (290 + Z.of_nat k); WBody [82; 48 + N.of_nat k]%N].
@@ -98,6 +109,7 @@ Fixpoint exec (l : list act) (s : st) {struct l} : outcome :=
       | APanic v => Panicked v s
       | AMapRH k => exec l' (set_rh s k)
       | ASub => exec l' s                       (* a separate request: nothing of this one changes *)
+      | AWrapRW => exec l' (set_wrapped s)
       | ANext =>
           match next (log s (NextCall i)) with
           | Done s1 => exec l' (log s1 (NextRet i))
@@ -117,7 +129,8 @@ Definition invoke (h : handler) (s : st) : outcome :=
       end
   | HRecovery =>                       (* defer recover(); c.Next() *)
       match next s with
-      | Panicked v s1 => Done (w_body head (CPanicPage v dev) (w_header 500 s1))
+      | Panicked v s1 =>               (* the writer is looked up in the injector: a re-mapped one is used *)
+          Done (w_body head (CPanicPage v dev) (w_mark head (w_header 500 s1)))
       | o => o
       end
   | HUnres => Panicked di_panic s
@@ -126,13 +139,17 @@ End Exec.
 
 Definition ret_of (h : handler) : list rv := match h with HNormal _ r => r | _ => [] end.
 
-(* handleReturn is only called when something was returned; the nearest ReturnHandler is used *)
+(* handleReturn is only called when something was returned; the nearest ReturnHandler is used; the default
+   one looks the http.ResponseWriter up in the injector, so a re-mapped writer receives what it writes *)
 Definition rendering (s : st) (h : handler) : list wop :=
   match ret_of h with
   | [] => []
   | vals => match rh s with
             | Some k => custom_rh k
-            | None => match apprh with Some k => custom_rh k | None => render vals end
+            | None => match apprh with
+                      | Some k => custom_rh k
+                      | None => if wrapped s then mark_ops (render vals) else render vals
+                      end
             end
   end.
 
@@ -156,7 +173,7 @@ Fixpoint run (fuel : nat) (s : st) {struct fuel} : outcome :=
         end
   end.
 
-Definition init : st := mkst 0 0 [] false [] None.
+Definition init : st := mkst 0 0 [] false [] None false.
 
 Definition serve : outcome := run (S (S n)) init.
 End Chain.
